@@ -121,3 +121,99 @@ func c10ParseableRoot(c *mon.Child) {
 		c.End(key)
 	}
 }
+
+// A negation captured into lexer.Token fields: whatever the spacing, the field
+// holds the token the negation matched (compared by type and text).
+type c10NegTok struct {
+	Kw    string        `@"let"`
+	First lexer.Token   `@~";"`
+	Rest  []lexer.Token `@( ~";" )*`
+	End   string        `@";"`
+}
+
+func c10TokenNegation(c *mon.Child) {
+	p, err := participle.Build[c10NegTok](participle.Lexer(c10PLex), participle.Elide("Whitespace", "Comment"))
+	if err != nil {
+		c.Violation("", "negtok", "grammar with a negation captured into Token fields does not build: "+err.Error(), nil)
+		return
+	}
+	sym := c10PLex.Symbols()
+	el := map[lexer.TokenType]bool{sym["Whitespace"]: true, sym["Comment"]: true}
+	r := c.RNG("negtok")
+	seps := []string{" ", "  ", "\n", " # c\n", "\t"}
+	canon := func(v *c10NegTok) string {
+		s := fmt.Sprintf("%d:%q|", v.First.Type, v.First.Value)
+		for _, t := range v.Rest {
+			if !el[t.Type] { // elided tokens between matched ones belong to the run; they vary with the spacing by construction
+				s += fmt.Sprintf("%d:%q ", t.Type, t.Value)
+			}
+		}
+		return s
+	}
+	for i := 0; i < c.N(500, 5000); i++ {
+		key := fmt.Sprintf("negtok%d", i)
+		if !c.Want(key) {
+			continue
+		}
+		toks := []string{"let"}
+		for n := r.Range(1, 4); n > 0; n-- {
+			toks = append(toks, r.Pick("a", "é", ",", "foo"))
+		}
+		toks = append(toks, ";")
+		render := func(style int) string {
+			out := ""
+			if style > 0 {
+				out = r.Pick("", " ", "\n")
+			}
+			for j, t := range toks {
+				if j > 0 {
+					if style == 0 {
+						out += " "
+					} else {
+						out += seps[r.Intn(len(seps))]
+					}
+				}
+				out += t
+			}
+			if style > 0 {
+				out += r.Pick("", " ", " # c")
+			}
+			return out
+		}
+		base := render(0)
+		c.Begin(key, fmt.Sprintf("negation captured into Token fields <- %q and re-spacings", base))
+		var first string
+		firstOK := false
+		for s := 0; s <= 5; s++ {
+			in := render(s)
+			c.Eval(1)
+			var v *c10NegTok
+			var perr error
+			if pn, pv, _ := mon.Guard(func() { v, perr = p.ParseString("", in) }); pn {
+				c.Violation("", key, fmt.Sprintf("parse panicked (%s) | input %q", pv, in), nil)
+				break
+			}
+			ok := perr == nil && v != nil
+			cn := ""
+			if ok {
+				cn = canon(v)
+				if len(v.Rest) > 0 && el[v.Rest[0].Type] {
+					cn += " (token list starts with an elided token)"
+				}
+			}
+			if s == 0 {
+				first, firstOK = cn, ok
+				continue
+			}
+			if ok != firstOK || cn != first {
+				c.Violation("", key, fmt.Sprintf("Kw `@\"let\"`; First lexer.Token `@~\";\"`; Rest []lexer.Token `@( ~\";\" )*`; End `@\";\"`: %q gives accepted=%v %s, re-spaced as %q it gives accepted=%v %s", base, firstOK, first, in, ok, cn), map[string]interface{}{"input_a": base, "input_b": in})
+				break
+			}
+		}
+		if firstOK {
+			c.Nontrivial("negtok:" + base)
+			c.Feature("token_captures_of_a_negation_respaced")
+		}
+		c.End(key)
+	}
+}
